@@ -67,7 +67,7 @@ TEXT = {
         "level_note": "this is a bounded check (4000 events per configuration in quick, 40000 in thorough), not a proof; deductive obligations for the functions behind this property are listed in DESIGN.md as work in progress",
     },
     "C13": {
-        "technique": "run-time contract monitors on the real classes (wrapped from outside) during real runs of the 17 runnable shipped configurations - a BOUNDED stand-in, labelled as such and never counted as proved",
+        "technique": "bounded stand-in, exhaustive over all operation sequences up to a stated length on the real TreeStateHandler; plus run-time contract monitors on the real classes (wrapped from outside) during real runs of the 17 runnable shipped configurations - a BOUNDED stand-in, labelled as such and never counted as proved",
         "level_text": "bounded: the global state read back before a commit equals the one read after the previous commit (nothing but commits changes it); checked on every committed event of every runnable shipped configuration up to the stated bound",
         "level_note": "this is a bounded check (4000 events per configuration in quick, 40000 in thorough), not a proof; deductive obligations for the functions behind this property are listed in DESIGN.md as work in progress",
     },
@@ -86,6 +86,31 @@ TEXT = {
                       "periodicity) are NOT decided by this check",
         "level_note": "level other: the merged-image (Ewald) C code is not under contract; model R (machine arithmetic treated as mathematical); "
                       "real-analysis axioms for pow/sqrt, acos/sin uninterpreted; constructors (use **kwargs) out of reach: object invariants are preconditions; sympy trusted",
+    },
+    "C02": {
+        "technique": "contract-based deductive verification (model R, z3/cvc5) of the displacement routines: hard spheres, the two vector inversion helpers, inverse-power (structure and infinite cases); native evaluation of the inversion identity E+(x) = budget on the real code for the clauses the solvers cannot decide",
+        "level_text": "proved for all inputs: HardSpherePotential.displacement returns the FIRST contact time (>= 0, distance equals the diameter, no earlier overlap) and infinity exactly when discriminant/approach rule out a contact; the two displacement_until_new_norm_sq helpers; InversePowerPotential.potential and the infinite / frame clauses of its repulsive and attractive displacement; bounded (native, labelled): the inversion identity of inverse-power, Lennard-Jones and displaced-even-power displacements in the well-conditioned range",
+        "level_note": "level other: the E+ identity clauses are evaluated natively on generated inputs only (nonlinear arithmetic over an uninterpreted power function is undecided by z3/cvc5); float totality down to denormal budgets, HardDipole, the periodic C displacement and CellBoundingPotential are not covered; model R; constructors are preconditions",
+    },
+    "C04": {
+        "technique": "contract-based deductive verification of the confirmation routine of bounding-potential events (interface contracts on Potential.derivative and _exchange_velocity, the uniform draw as ghost input), z3/cvc5; bounded grid for the domination clause",
+        "level_text": "proved for all inputs and the whole range of the draw: _calculate_out_state_of_two_leaf_unit_bounding_potential hands the velocity over iff the draw in [0, q_bound] lies below the true rate (probability max(0,q)/q_bound) and otherwise leaves every velocity and time stamp untouched (frame); bounded: true Ewald rate <= 1.5837-scaled nearest-image bound on a grid of the minimum-image cube",
+        "level_note": "level other: domination is a transcendental supremum - checked on a 25^3 grid x signs x directions x 3 box lengths + local refinement only; the composite-object / cell-veto confirmation sites are not under contract",
+    },
+    "C10": {
+        "technique": "run-time contract monitor (bounded stand-in): at every activator call the targets of the excluded-cells, surplus and cell-bounding / cell-veto families are recomputed from the real taggers and compared with the other relevant units",
+        "level_text": "bounded: near + surplus + far targets form a partition of the other relevant units (nobody missed, nobody treated twice) at every committed event of the shipped cell-based configurations",
+        "level_note": "bounded check (4000 events per configuration in quick); the factor-file clause (FactorTypeMap) is not covered; no deductive obligation yet",
+    },
+    "C16": {
+        "technique": "bounded stand-in, exhaustive over a stated finite family of grids, evaluated natively on the real CuboidCells / CuboidPeriodicCells",
+        "level_text": "bounded: for every grid of the family (dimension 1-3, cubic and cuboid boxes, 1-7 cells per side, 0-2 neighbour layers, periodic and not): extents abut without gap or overlap and cover [0, L) up to the last float, position_to_cell returns a cell containing the probe position (including the extreme floats at cell and box boundaries), neighbour / nearby / relative / translate relations equal digit arithmetic mod n",
+        "level_note": "bounded, not a proof (itertools.product, struct-based float stepping and generators are outside the verifier's subset); a genuine defect found by this check was repaired (fix commit, see known_findings.txt)",
+    },
+    "C18": {
+        "technique": "contract-based deductive verification of Walker.sample_cell / total_rate against the alias table's representation invariant (both random draws as ghost inputs), z3/cvc5; native bounded check that _build_table establishes the invariant",
+        "level_text": "proved for every well-formed table and the whole range of both draws: the first share of the drawn row is returned iff the second draw is at most its mass (exact alias sampling, no IndexError), total_rate is the stored total; bounded (native): for generated rate vectors the table has n rows, every row sums to the mean, every item's shares sum to its rate; KNOWN FINDING: a zero-rate share is selected when the draw is exactly 0.0",
+        "level_note": "level other: _build_table (list surgery with pop/append and in-place mutation) is checked natively on generated vectors only; the cell-veto handler clauses (event rate = total x speed, offset mapping) are not under contract",
     },
 }
 
